@@ -45,7 +45,7 @@ JAX_OK = ['bool', 'int8', 'int16', 'int32', 'uint8', 'uint16', 'uint32',
           'float8_e5m2', 'int4', 'uint4']
 LAYOUTS = ['C', 'F', 'T', 'strided', 'neg', 'broadcast', 'swapped']
 KEYS = ['a', 'b', 'c', '', 'é', '0', '1', '10', 'params', 'x/y', '.']
-FIELD_NAMES = ['p', 'q', 'r', 'mu', 'nu', 'count']
+FIELD_NAMES = ['p', 'q', 'r', 'mu', 'nu', 'count', 'name', 'fields', 'values']
 
 
 def np_dtype(name):
